@@ -1076,6 +1076,8 @@ func init() {
 				{Name: "tiny_payloads", N: c.Pick(4, 40), Fn: c09Tiny},
 				{Name: "broken_uploads_and_odd_queries", N: c.Pick(2, 10), Fn: c09Uploads},
 				{Name: "storage_calls_outliving_the_request", N: c.Pick(4, 20), Fn: c09SlowStorage},
+				{Name: "names_in_other_scripts", N: 4, Fn: c09Names},
+				{Name: "many_oversized_then_regular", N: 1, Fn: c09ManyOversized},
 			}
 			if c.Thorough {
 				wls = append(wls, core.Workload{Name: "edit_pairs", N: n * 16, Fn: c09Edits(true)})
@@ -1086,4 +1088,78 @@ func init() {
 			return wls
 		},
 	})
+}
+
+// c09Names: principals and attribute names in other scripts and of every length (bytes, runes and grapheme clusters
+// differ), through every endpoint that reads, logs or echoes them.
+func c09Names(r *core.Run, idx int, rng *rand.Rand) {
+	const wl = "names_in_other_scripts"
+	e := c09World()
+	e.W.NoLog = true
+	sp := stdSP(0)
+	units := []string{"a", "é", "ü", "я", "ω", "中", "한", "あ", "😀", "👨‍👩‍👧", "é", "‮", "ß", "İ", "ﬁ", " ", "𝔘"}
+	var names []string
+	for _, u := range units {
+		for _, n := range []int{1, 16, 17, 21, 22, 32, 33, 59, 60, 61, 63, 64, 65, 100, 255, 256, 1024} {
+			names = append(names, strings.Repeat(u, n))
+		}
+	}
+	names = append(names, "Владимир Владимирович Маяковский-Иванов", "Ελευθέριος Κυριάκου Βενιζέλος ο πρεσβύτερος", "김수한무 거북이와 두루미 삼천갑자 동방삭", "山田太郎左衛門尉藤原朝臣宗近之助三郎四郎五郎", "😀😀😀😀😀😀😀😀😀😀😀😀😀😀😀😀😀😀😀😀")
+	n := 0
+	for i, name := range names {
+		if i%4 != idx%4 {
+			continue
+		}
+		l := conformantLogout(rng, sp)
+		l.NameID = name
+		a := validAuthn(rng, sp)
+		a.Subject = name
+		a.ProviderName = name
+		q := conformantQuery(rng, sp, name)
+		q.Attrs = append(q.Attrs, spsim.QAttr{Name: name, NameFormat: basicFormat, Friendly: name})
+		calls := []*env.Call{
+			e.Do(env.Req{Method: "POST", Path: env.PathSLO, Body: spsim.FormBody("SAMLRequest", spsim.B64([]byte(l.XML(rng))), "RelayState", name)}),
+			e.Do(env.Req{Path: env.PathSLO, Query: "SAMLRequest=" + url.QueryEscape(spsim.DeflateB64(l.XML(rng))) + "&RelayState=" + url.QueryEscape(name)}),
+			e.Do(env.Req{Path: env.PathSSO, Query: "SAMLRequest=" + url.QueryEscape(spsim.DeflateB64(a.XML(rng))) + "&RelayState=" + url.QueryEscape(name)}),
+			e.Do(env.Req{Method: "POST", Path: env.PathAttr, Body: q.XML(rng), CT: "text/xml"}),
+			e.Do(env.Req{Path: env.PathLogin, Query: "id=" + url.QueryEscape(name)}),
+		}
+		for ci, c := range calls {
+			n++
+			if c.Panic != "" {
+				r.Violate(core.Violation{Clause: "panic", Class: fmt.Sprintf("name_in_other_script|endpoint%d", ci), Reason: firstLine(c.Panic) + " @ " + panicSite(c.Stack), Workload: wl, Index: idx, Case: map[string]any{"name": clipS(name, 200), "bytes": len(name), "runes": len([]rune(name))}, Observed: c.Describe()})
+				return
+			}
+		}
+	}
+	r.EvalBulk(int64(n), int64(n))
+	r.Count("requests_with_names_in_other_scripts", int64(n))
+}
+
+// c09ManyOversized: a long row of requests whose payload exceeds the inflate limit, then ordinary ones. Every one of
+// them is answered (a request that is not is reported by the per-request monitor).
+func c09ManyOversized(r *core.Run, idx int, rng *rand.Rand) {
+	e := c09World()
+	e.W.NoLog = true
+	sp := stdSP(0)
+	big := bomb("<!--", "-->", ' ', 11<<20)
+	for k := 0; k < 40; k++ {
+		var c *env.Call
+		if k%2 == 0 {
+			c = e.Do(env.Req{Path: env.PathSLO, Query: "SAMLRequest=" + url.QueryEscape(big)})
+		} else {
+			c = e.Do(env.Req{Path: env.PathSSO, Query: "SAMLRequest=" + url.QueryEscape(big)})
+		}
+		if c.Panic != "" {
+			r.Violate(core.Violation{Clause: "panic", Class: "many_oversized_payloads", Reason: firstLine(c.Panic) + " @ " + panicSite(c.Stack), Workload: "many_oversized_then_regular", Index: idx})
+			return
+		}
+	}
+	l := conformantLogout(rng, sp)
+	c := e.Do(env.Req{Path: env.PathSLO, Query: "SAMLRequest=" + url.QueryEscape(spsim.DeflateB64(l.XML(rng)))})
+	if c.Panic != "" {
+		r.Violate(core.Violation{Clause: "panic", Class: "regular_request_after_many_oversized", Reason: firstLine(c.Panic), Workload: "many_oversized_then_regular", Index: idx})
+	}
+	r.EvalBulk(41, 2)
+	r.Count("oversized_payloads_in_a_row", 40)
 }
